@@ -24,34 +24,6 @@ def metric_type_table(f):
     return {int(v["discr"]): v["name"] for v in adt["variants"]}
 
 
-def arms_of_type_switch(b, f):
-    """In encode_impl: (switch block, {variant name: target}, fam term, metric-loop next call)."""
-    table = metric_type_table(f)
-    for bi in b.reachable_blocks():
-        si = b.switch_info(bi)
-        if not si:
-            continue
-        d = si[0]
-        if d[0] == "discr":
-            d = d[1]
-        d = peel(d)
-        if is_call(d, ["get_field_type", "MetricFamily::get_field_type", "field_type", "type_"]):
-            arms = {}
-            for v, t in si[1]:
-                arms[table.get(v, str(v))] = t
-            return bi, arms, si[2], peel(d[2][0])
-    return None, {}, None, None
-
-
-def exclusive_region(b, tgt, others, stop):
-    """Blocks reachable from tgt without passing through `stop` blocks, minus blocks reachable from other arms."""
-    r = b.reach(tgt, avoid_blocks=stop)
-    for o in others:
-        if o != tgt:
-            r = r - b.reach(o, avoid_blocks=stop)
-    return r
-
-
 def _type_discr(b, bi):
     """The family-type term a switch block decides on (None if it decides on something else)."""
     si = b.switch_info(bi)
@@ -62,6 +34,37 @@ def _type_discr(b, bi):
         d = d[1]
     d = peel(d)
     return d if is_call(d, ["get_field_type", "MetricFamily::get_field_type", "field_type", "type_"]) else None
+
+
+def arms_of_type_switch(b, f):
+    """In encode_impl: (switch block, {variant name: target}, fam term, metric-loop next call).  The switch meant is the one inside the per-sample
+    loop (a match over the type in the header, e.g. for the TYPE word, is not it)."""
+    table = metric_type_table(f)
+    mnext = [c for c in b.calls_to("Iterator::next") if (lambda e: e and is_call(e[0], ["get_metric"]))(elem_of(("field", ("downcast", c.result_term(), "Some"), "0")))]
+    cands = []
+    for bi in b.reachable_blocks():
+        si = b.switch_info(bi)
+        if not si:
+            continue
+        d = _type_discr(b, bi)
+        if d is not None:
+            cands.append((bi, si, d))
+    inside = [c for c in cands if mnext and b.dominates(mnext[0].bb, c[0])]
+    for bi, si, d in (inside or cands):
+        arms = {}
+        for v, t in si[1]:
+            arms[table.get(v, str(v))] = t
+        return bi, arms, si[2], peel(d[2][0])
+    return None, {}, None, None
+
+
+def exclusive_region(b, tgt, others, stop):
+    """Blocks reachable from tgt without passing through `stop` blocks, minus blocks reachable from other arms."""
+    r = b.reach(tgt, avoid_blocks=stop)
+    for o in others:
+        if o != tgt:
+            r = r - b.reach(o, avoid_blocks=stop)
+    return r
 
 
 def variant_region(b, f, sw, name, stop):
@@ -140,6 +143,38 @@ def value_in_region(b, t, region):
         if len(alts) == 1:
             return alts[0]
     return t
+
+
+def type_word_table(b, f, t):
+    """t (a value written to the sink) is the lower-case name of the family's declared type chosen by a match over that type: a local assigned a string
+    literal on each edge of a switch on the family type, the literal being the lower-cased variant name, all variants covered."""
+    t0 = peel(t, transparent=DEREFS)
+    if not (isinstance(t0, tuple) and t0 and t0[0] == "var"):
+        return False
+    table = metric_type_table(f)
+    defs = b.defs().get(t0[1], [])
+    if not defs or any(d[0] != "assign" for d in defs):
+        return False
+    sws = [x for x in b.reachable_blocks() if b.blocks[x]["term"]["k"] == "switch" and _type_discr(b, x) is not None]
+    covered = set()
+    for d in defs:
+        lit = const_str(peel(b.term_rvalue(d[3], (d[1], d[2]))))
+        if lit is None:
+            return False
+        names = set()
+        for x in sws:
+            si = b.switch_info(x)
+            listed = {v for v, _ in si[1]}
+            for v, tgt in si[1]:
+                if b.edge_dominates(x, tgt, d[1]) and len([1 for vv, tt in si[1] if tt == tgt]) == 1:
+                    names.add(table.get(v))
+            rest = [n for v, n in table.items() if v not in listed]
+            if len(rest) == 1 and si[2] not in [tt for _, tt in si[1]] and b.edge_dominates(x, si[2], d[1]):
+                names.add(rest[0])
+        if len(names) != 1 or None in names or lit != '"%s"' % list(names)[0].lower():
+            return False
+        covered |= names
+    return covered == set(table.values())
 
 
 def rule_arm_payload(ctx, f, rid):
